@@ -111,7 +111,7 @@ def _gen_node(rng):
     return _mk_node({"elts": ks})
 
 
-REG.declare_class("dns.btree._Node", make=_mk_node, gen=_gen_node, ghost={"keys": lambda o: [e.key() for e in o.elts]},
+REG.declare_class("dns.btree._Node", make=_mk_node, gen=_gen_node, ghost={"elts": lambda o: [e.key() for e in o.elts]},
                   inv="all(self.elts[a] < self.elts[b] for a in range(len(self.elts)) for b in range(a + 1, len(self.elts)))",
                   elts=T.list_of(T.int))
 
